@@ -80,6 +80,13 @@ func walkExpr(e ast.Expr) ast.Expr {
 			return call(sel("vch", "Close"), x.Args[0])
 		}
 		if s, ok := x.Fun.(*ast.SelectorExpr); ok {
+			// x.mu.Lock() ... of a sync.Mutex / sync.RWMutex field or variable
+			if len(x.Args) == 0 {
+				switch s.Sel.Name {
+				case "Lock", "Unlock", "RLock", "RUnlock":
+					return call(sel("vch", s.Sel.Name), &ast.UnaryExpr{Op: token.AND, X: s.X})
+				}
+			}
 			// x.server.Shutdown(ctx) of an *http.Server: the wait for the active handlers is
 			// a blocking operation the scheduler has to see
 			if inner, ok := s.X.(*ast.SelectorExpr); ok && s.Sel.Name == "Shutdown" && inner.Sel.Name == "server" && len(x.Args) == 1 {
